@@ -1,4 +1,4 @@
-(** * C04 — Relation targets stay consistent; removing a target detaches, never corrupts.  (PARTIAL: see the end of this comment)
+(** * C04 — Relation targets stay consistent; removing a target detaches, never corrupts.  (partial only for histories with observers / registered filters / batch operations: see the end of this comment)
 
     Proved here are the MECHANISM lemmas that keep relation targets valid, in general worlds:
     - table creation validates every relation before changing anything: a target that is neither
@@ -37,19 +37,31 @@
     - the invariant has an executable form proved sound ([C04_checker_sound]); it is evaluated on
       every state the correspondence streams reach (see DESIGN.md I.1) and was validated on the
       hard cases by computation (Rel2Check: 19 scenario scripts, three 500-step fuzz histories).
-    STILL NOT PROVED (in progress: Rel2Plan packages A, D, E): that [St2] is preserved by the
-    remaining operations in relation worlds (creation/add/remove/exchange with relations, batch forms,
-    Shrink, Reset) and hence holds after every history. Until then the invariant's preservation by
-    those operations is tied by the `relations` correspondence stream (lookups, free lists, targets
-    and flags are in the dump compared after every step; scenarios drive two targets of one table
-    dying in one batch, the same target in two components, recycling after Shrink) plus the executed
-    invariant and the targets-alive oracle on the implementation's own trace.
-    Five genuine defects of the Go code were found while building this tier and are repaired in
+    - OVER HISTORIES (Rel2Hist.v): the invariant [Inv2 = St2 /\ KeysLive /\ no observers, unlocked
+      /\ issued handles ok] holds after EVERY history (fewer than 2^31 operations, any capacities, any
+      component kinds incl. relation components) of NewEntity, Unsafe.NewEntity/NewEntityRel,
+      CopyEntity, Add/AddRel, Remove, Exchange, write, SetRelations, RemoveEntity, Shrink and the
+      read-only operations - with ARBITRARY arguments: stale or zero handles, malformed relation
+      lists (duplicates, non-relation components, components not being added, dead targets); the
+      state after a recovered panic satisfies it too ([C04_invariant_after_every_history]). Hence:
+      in every state of such a history every relation target is zero or alive
+      ([C04_targets_always_zero_or_alive]); removing a live target detaches exactly the entities that
+      pointed to it and changes nothing else, and never fails ([C04_remove_target_detaches_history]);
+      the target read back after a successful SetRelations is the one assigned
+      ([C04_target_is_last_assigned]); stale handles are rejected with the state unchanged; new
+      handles are fresh; Reset succeeds in every such state ([C04_reset_succeeds]).
+    STILL NOT PROVED: histories that also contain observers, registered filters, the batch
+    operations and Reset followed by further operations in relation worlds (Reset invalidates the
+    bookkeeping of issued handles that the induction carries). For those the invariant's preservation
+    is tied by the `relations`/`batch`/`reset` correspondence streams (lookups, free lists, targets
+    and flags are in the dump compared after every step) plus the executed invariant and the
+    targets-alive oracle on the implementation's own trace.
+    Six genuine defects of the Go code were found while building this tier and are repaired in
     /repo (a3c3b99 duplicate relation component, d31ae2e rejected batch leaves the world locked,
-    9b15de7 unregistered targets, 535125b SetRelations into the entity's own table, and earlier
-    875e7f0); see known_findings.json. *)
+    9b15de7 unregistered targets, 535125b SetRelations into the entity's own table, 7abff66
+    archetype left without table, and earlier 875e7f0); see known_findings.json. *)
 From Ark Require Import Model.Base Model.Mask Model.Pool Model.Util Model.World Model.Run.
-From Ark Require Import Proofs.WF Proofs.StorageA Proofs.StorageBDefs Proofs.RelProofs Proofs.Rel2Defs Proofs.Rel2Struct Proofs.Rel2Remove Proofs.Rel2SetRel Properties.Common.
+From Ark Require Import Proofs.WF Proofs.StorageA Proofs.StorageBDefs Proofs.RelProofs Proofs.Rel2Defs Proofs.Rel2Struct Proofs.Rel2Remove Proofs.Rel2SetRel Proofs.Rel2Maint Proofs.StorageC Proofs.Rel2Hist Properties.Common.
 
 Theorem C04_create_table_rejects_invalid : forall s aid a rels,
   nth_error (w_archs s) aid = Some a ->
@@ -181,7 +193,59 @@ Proof. exact st2_b_sound. Qed.
     the SetRelations theorem, now rejected. *)
 Definition C04_relation_examples := (r2c_ex_St2, r2c_ex_by_theorem, r2b_ex_by_theorem, r2b_regression_scripts).
 
-Definition C04_all := (C04_targets_zero_or_alive, C04_remove_entity, C04_remove_fails_only_for_dead, C04_remove_target_detaches,
+(** ** Over histories *)
+
+Theorem C04_invariant_after_every_history : forall c lines,
+  cfg_ok2 c -> Forall (rel_core_line (length (sc_kinds c))) lines -> length lines + 4 < Nat.pow 2 31 ->
+  Inv2 (exec c lines) (length lines).
+Proof. exact reachable_inv2. Qed.
+
+Theorem C04_step_preserves_invariant : forall debug wd s n line o,
+  Inv2 s n -> n + 4 < Nat.pow 2 31 -> decode_op line = Some o -> rel_core_op o = true ->
+  (forall c, In c (rel_op_ids o) -> c < length (w_reg s)) ->
+  let s' := fst (step debug wd s line) in
+  Inv2 s' (S n) /\ w_reg s' = w_reg s /\
+  (w_issued s' = w_issued s \/ exists e, w_issued s' = w_issued s ++ [e] /\ live s' e = true /\ live s e = false).
+Proof. exact step_inv2. Qed.
+
+Theorem C04_targets_always_zero_or_alive : forall c lines e cmp x,
+  cfg_ok2 c -> Forall (rel_core_line (length (sc_kinds c))) lines -> length lines + 4 < Nat.pow 2 31 ->
+  tgt (exec c lines) e cmp = Some x ->
+  x = zero_ent \/ live (exec c lines) x = true.
+Proof. exact targets_always_zero_or_alive. Qed.
+
+Theorem C04_remove_target_detaches_history : forall c lines h x,
+  cfg_ok2 c -> Forall (rel_core_line (length (sc_kinds c))) lines -> length lines + 4 < Nat.pow 2 31 ->
+  let s := exec c lines in
+  handle s h = Some x -> live s x = true ->
+  exists s', step_op (sc_debug c) (ORemoveEntity h) s = Ok [] s' /\ St2 s' /\ live s' x = false /\
+    forall e, e <> x -> live s' e = live s e /\ (forall cmp, val s' e cmp = val s e cmp) /\
+      (forall cmp, tgt s' e cmp = r2c_detached x (tgt s e cmp)).
+Proof. exact remove_target_detaches. Qed.
+
+Theorem C04_target_is_last_assigned : forall debug s n h hrels res s' e,
+  Inv2 s n -> n + 4 < Nat.pow 2 31 -> handle s h = Some e ->
+  step_op debug (OUSetRel h hrels) s = Ok res s' ->
+  forall c hx x, In (c, hx) hrels -> handle s hx = Some x ->
+    tgt s' e c = Some x /\ (x = zero_ent \/ live s x = true).
+Proof. exact target_is_last_assigned_setrel. Qed.
+
+Theorem C04_stale_handle_rejected : forall debug s n o h e,
+  Inv2 s n -> uses_handle o h -> handle s h = Some e -> live s e = false ->
+  exists er, step_op debug o s = Err er s.
+Proof. exact stale_handle_rejected2. Qed.
+
+Theorem C04_reset_succeeds : forall c lines,
+  cfg_ok2 c -> Forall (rel_core_line (length (sc_kinds c))) lines -> length lines + 4 < Nat.pow 2 31 ->
+  exists s', step_op (sc_debug c) OReset (exec c lines) = Ok [] s' /\ St2 s' /\ r2d_KeysLive s' /\
+    is_locked s' = false /\ (forall e, live s' e = false) /\ w_reg s' = w_reg (exec c lines).
+Proof. exact reachable_reset_succeeds. Qed.
+
+Definition C04_history_examples := (r2e_script_inv, r2e_reset_refuted_table).
+
+Definition C04_all := (C04_invariant_after_every_history, C04_step_preserves_invariant, C04_targets_always_zero_or_alive,
+  C04_remove_target_detaches_history, C04_target_is_last_assigned, C04_stale_handle_rejected, C04_reset_succeeds, C04_history_examples,
+  C04_targets_zero_or_alive, C04_remove_entity, C04_remove_fails_only_for_dead, C04_remove_target_detaches,
   C04_set_relations, C04_get_or_create_table, C04_create_table, C04_checker_sound, C04_relation_examples,
   C04_create_table_rejects_invalid, C04_created_tables_have_valid_targets,
   C04_set_relations_changes_exactly_the_named, C04_set_relations_accepts_only_valid, C04_exact_lookup_compares_generations,
